@@ -47,10 +47,10 @@ Qed.
 Lemma revert_contracts_good ch s : Inv s -> good (revert_contracts ch s).
 Proof.
   intros Hs. unfold revert_contracts.
-  apply good_bind; [apply each1_good; [apply rform1_ok|exact Hs]|]; clear s Hs; intros s Hs.
   apply good_bind; [apply foldwith1_good; [intros; apply revise_conf1_ok|exact Hs]|]; clear s Hs; intros s Hs.
   apply good_bind; [apply each1_good; [apply rsucc1_ok|exact Hs]|]; clear s Hs; intros s Hs.
   apply good_bind; [apply each1_good; [apply rfail1_ok|exact Hs]|]; clear s Hs; intros s Hs.
+  apply good_bind; [apply each1_good; [apply rform1_ok|exact Hs]|]; clear s Hs; intros s Hs.
   apply good_bind; [apply each2_good; [apply rform2_ok|exact Hs]|]; clear s Hs; intros s Hs.
   apply good_bind; [apply foldwith2_good; [intros; apply revise_elem2_ok|exact Hs]|]; clear s Hs; intros s Hs.
   apply good_bind; [apply each2_good; [apply rsucc2_S_ok|exact Hs]|]; clear s Hs; intros s Hs.
